@@ -9,6 +9,7 @@
 //! plemma: C13 lemma_channel_announcement_fields: the unsigned channel_announcement likewise (reader written as a struct literal: fields are evaluated in source order)
 //! plemma: C13 lemma_channel_announcement_signature_fields: the four signatures of a channel_announcement likewise
 //! plemma: C13 lemma_channel_update_fields: the unsigned channel_update likewise
+//! plemma: C13 lemma_tx_add_input_fields, lemma_reply_channel_range_fields, lemma_node_announcement_fields, lemma_trampoline_onion_packet_fields, lemma_onion_packet_fields: tx_add_input, reply_channel_range, node_announcement (fixed head), the onion packets likewise (the variable-length parts of these messages are under contract in u13 / u13e)
 //! trusted: assume_specification for core::cmp::max / core::cmp::min (std definitions): present in every unit so that a change that introduces them is verified instead of being rejected by the tool
 use vstd::prelude::*;
 verus! {
@@ -84,5 +85,50 @@ pub proof fn lemma_channel_announcement_signature_fields() ensures written_chann
     fee_proportional_millionths: Readable::read(r)?, fee_base_msat: Readable::read(r)?,
 //@end
 pub proof fn lemma_channel_update_fields() ensures written_channel_update() =~= read_channel_update() {}
+
+// ---- further hand-written codecs: fixed-position fields read in the order written ----
+//@extract lightning/src/ln/msgs.rs :: impl Writeable for TxAddInput :: fn write
+//@fields write written_tx_add_input only=channel_id,serial_id,prevtx_out,sequence
+//@end
+//@extract lightning/src/ln/msgs.rs :: impl LengthReadable for TxAddInput :: fn read_from_fixed_length_buffer
+//@fields read read_tx_add_input only=channel_id,serial_id,prevtx_out,sequence
+//@mutant tx_add_input_sequence_read_before_the_output_index
+    let prevtx_out: u32 = Readable::read(r)?; let sequence: u32 = Readable::read(r)?;
+//@with
+    let sequence: u32 = Readable::read(r)?; let prevtx_out: u32 = Readable::read(r)?;
+//@end
+pub proof fn lemma_tx_add_input_fields() ensures written_tx_add_input() =~= read_tx_add_input() {}
+//@extract lightning/src/ln/msgs.rs :: impl Writeable for ReplyChannelRange :: fn write
+//@fields write written_reply_channel_range only=chain_hash,first_blocknum,number_of_blocks,sync_complete
+//@end
+//@extract lightning/src/ln/msgs.rs :: impl LengthReadable for ReplyChannelRange :: fn read_from_fixed_length_buffer
+//@fields read read_reply_channel_range only=chain_hash,first_blocknum,number_of_blocks,sync_complete
+//@mutant reply_channel_range_block_fields_swapped
+    let first_blocknum: u32 = Readable::read(r)?; let number_of_blocks: u32 = Readable::read(r)?;
+//@with
+    let number_of_blocks: u32 = Readable::read(r)?; let first_blocknum: u32 = Readable::read(r)?;
+//@end
+pub proof fn lemma_reply_channel_range_fields() ensures written_reply_channel_range() =~= read_reply_channel_range() {}
+//@extract lightning/src/ln/msgs.rs :: impl Writeable for UnsignedNodeAnnouncement :: fn write
+//@fields write written_node_announcement only=features,timestamp,node_id,alias
+//@end
+//@extract lightning/src/ln/msgs.rs :: impl LengthReadable for UnsignedNodeAnnouncement :: fn read_from_fixed_length_buffer
+//@fields read read_node_announcement only=features,timestamp,node_id,alias
+//@end
+pub proof fn lemma_node_announcement_fields() ensures written_node_announcement() =~= read_node_announcement() {}
+//@extract lightning/src/ln/msgs.rs :: impl Writeable for TrampolineOnionPacket :: fn write
+//@fields write written_trampoline_onion_packet only=version,public_key,hmac
+//@end
+//@extract lightning/src/ln/msgs.rs :: impl LengthReadable for TrampolineOnionPacket :: fn read_from_fixed_length_buffer
+//@fields read read_trampoline_onion_packet only=version,public_key,hmac
+//@end
+pub proof fn lemma_trampoline_onion_packet_fields() ensures written_trampoline_onion_packet() =~= read_trampoline_onion_packet() {}
+//@extract lightning/src/ln/msgs.rs :: impl Writeable for OnionPacket :: fn write
+//@fields write written_onion_packet only=version,hmac
+//@end
+//@extract lightning/src/ln/msgs.rs :: impl Readable for OnionPacket :: fn read
+//@fields read read_onion_packet only=version,hmac
+//@end
+pub proof fn lemma_onion_packet_fields() ensures written_onion_packet() =~= read_onion_packet() {}
 }
 fn main() {}
